@@ -15,8 +15,8 @@ def execute(trace):
     return dc.execute(PROPERTY, trace)
 
 
-RULE = ('Each run generates a DSG spec (selection choices, incompatibilities, design-variable nodes, in 30% of the runs a '
-        'connection choice with conditional / grouped connectors and exclusions), builds a GraphProcessor in a drawn mode - '
+RULE = ('Each run generates a DSG spec (selection choices, incompatibilities, design-variable nodes; connection '
+        'choices are validated at the assign_enc level by C12 and are not generated here), builds a GraphProcessor in a drawn mode - '
         'default, complete analysis killed by the time limiter at a drawn delivery point (fast encoder), MemoryError in the '
         'complete analysis (fast encoder), fast '
         'encoder requested - and decodes the whole declared space (<= 300 vectors) or 120 sampled vectors, both create '
@@ -28,4 +28,4 @@ WALL_BUDGET = {'quick': 90.0, 'thorough': 1500.0}
 
 def jobs(tier, batch_seed):
     from simkit.driver import std_jobs
-    return std_jobs([('generate', 200000 if tier == 'thorough' else 4000)], batch_seed)
+    return std_jobs([('generate', 200000 if tier == 'thorough' else 12000)], batch_seed)
